@@ -129,7 +129,7 @@ impl ScmSocket for Mock {
     }
 }
 
-fn set_surrogates(on: bool) {
+pub(crate) fn set_surrogates(on: bool) {
     // SAFETY: single-threaded harness.
     unsafe {
         rk::SUR_RL = on;
@@ -213,7 +213,7 @@ pub(crate) fn mk_conn(shape: Shape, body_have: usize) -> HttpConnection<Mock> {
     conn
 }
 
-fn state_code<T>(c: &HttpConnection<T>) -> u8 {
+pub(crate) fn state_code<T>(c: &HttpConnection<T>) -> u8 {
     match c.state {
         ConnectionState::WaitingForRequestLine => 0,
         ConnectionState::WaitingForHeaders => 1,
@@ -241,7 +241,7 @@ fn is_parse_err<T>(r: &Result<T, ConnectionError>) -> bool {
 // ---------------------------------------------------------------------------------------------
 // F-contract: parse_request_line
 // ---------------------------------------------------------------------------------------------
-// @harness props=C01,C02,C04 props_thorough=C03 tiers=quick:B=8;thorough:B=16 unwind=B+2 cap=1500 mem=2 covers=3
+// @harness props=C01,C02,C04,C14 props_thorough=C03 tiers=quick:B=8;thorough:B=16 unwind=B+2 cap=1500 mem=2 covers=3
 // @fn HttpConnection::parse_request_line request::find HttpConnection::shift_buffer_left
 // @claim F-contract(request line): first CRLF at i => line parser called once on w[start..i), start'=i+2, state Headers, fresh pending request; no CRLF => InvalidRequest iff start==0 && end==B, else Ok(false), read_cursor=end-start and the bytes carried to offset 0; queues untouched
 // @bounds window B bytes, arbitrary contents, arbitrary 0<=start<=end<=B; request-line content parser replaced by the surrogate
@@ -311,7 +311,7 @@ fn resp_is_continue(r: &Response, v: Version) -> bool {
 // ---------------------------------------------------------------------------------------------
 // F-contract: parse_headers
 // ---------------------------------------------------------------------------------------------
-// @harness props=C01,C02,C04,C13 props_thorough=C03 tiers=quick:B=8;thorough:B=16 unwind=B+2 cap=1500 mem=3 covers=7
+// @harness props=C01,C02,C04,C13,C14 props_thorough=C03 tiers=quick:B=8;thorough:B=16 unwind=B+2 cap=1500 mem=3 covers=7
 // @fn HttpConnection::parse_headers request::find HttpConnection::shift_buffer_left Response::new
 // @stubs std::string::String::from_utf8_lossy
 // @claim F-contract(headers): CRLF at start => end of headers: content_length 0 -> RequestReady; n>limit -> SizeLimitExceeded(limit,n) (full width n:u32, limit:usize); else WaitingForBody with counter n, empty body, exactly one 100-continue with the request's version iff expect; CRLF at i>start => header parser called once on w[start..i), fatal error propagated, UnsupportedValue ignored, start'=i+2; no CRLF => header SizeLimitExceeded iff start==0 && end==B else carried to offset 0
@@ -870,7 +870,7 @@ pub(crate) fn close_files_hook(files: &mut Vec<File>) {
     }
 }
 
-fn is_fresh<T>(c: &HttpConnection<T>) -> bool {
+pub(crate) fn is_fresh<T>(c: &HttpConnection<T>) -> bool {
     state_code(c) == 0
         && c.pending_request.is_none()
         && c.read_cursor == 0
@@ -879,7 +879,7 @@ fn is_fresh<T>(c: &HttpConnection<T>) -> bool {
         && c.files.is_empty()
 }
 
-fn any_fd() -> RawFd {
+pub(crate) fn any_fd() -> RawFd {
     let fd: RawFd = kani::any();
     kani::assume(fd >= 0 && fd < 100000);
     fd
@@ -1020,29 +1020,5 @@ fn tr_single() {
     }
     kani::cover!(true, "end reached");
     std::mem::forget(r);
-    std::mem::forget(conn);
-}
-
-// @harness props=C11,C12 props_thorough=C03 tiers=quick:B=8,M=0|B=8,M=1|B=8,M=2;thorough:B=16,M=0|B=16,M=1|B=16,M=2 unwind=B+4 cap=900 mem=2 covers=1
-// @fn HttpConnection::reset_parser
-// @claim the reset that try_read performs after a parse error leaves exactly the state of a new connection from every parser state: state WaitingForRequestLine, no pending request, read cursor 0, no partial body, counter 0, no descriptor held (each held descriptor closed once); queued requests and responses untouched
-// @bounds parser shape per query M (0 request line with an arbitrary carried prefix, 1 headers with an arbitrary pending request, 2 body with 2 accumulated bytes and an arbitrary counter); 2 descriptors held; window B
-#[kani::proof]
-fn c11_reset() {
-    set_surrogates(true);
-    unsafe { CLOSED_FILES = 0 };
-    let mut conn = match crate::verif_params::M {
-        0 => mk_conn(Shape::RL, 0),
-        1 => mk_conn(Shape::HD, 0),
-        _ => mk_conn(Shape::BD, 2),
-    };
-    conn.files.push(unsafe { File::from_raw_fd(any_fd()) });
-    conn.files.push(unsafe { File::from_raw_fd(any_fd()) });
-    conn.parsed_requests.push_back(any_pending(0, false));
-    conn.reset_parser();
-    assert!(is_fresh(&conn), "[C11] parser state after the reset differs from a new connection");
-    assert!(unsafe { CLOSED_FILES } == 2, "[C11,C12] descriptors pending at a parse error must be closed, not kept");
-    assert!(conn.parsed_requests.len() == 1 && conn.response_queue.is_empty(), "[C11] reset touched the queues");
-    kani::cover!(true, "end reached");
     std::mem::forget(conn);
 }
